@@ -385,13 +385,14 @@ class Property(cssutils.util.Base):
             self._log.info('Property: Invalid priority: %s' % self._valuestr(priority))
 
         if wellformed:
+            # validate priority (raises before anything is changed)
+            newpriority = self._normalize(new['literalpriority'])
+            if newpriority not in ('', 'important'):
+                self._log.error('Property: No CSS priority value: %s' % newpriority)
             self.wellformed = self.wellformed and wellformed
             self._literalpriority = new['literalpriority']
-            self._priority = self._normalize(self.literalpriority)
+            self._priority = newpriority
             self.seqs[2] = newseq
-            # validate priority
-            if self._priority not in ('', 'important'):
-                self._log.error('Property: No CSS priority value: %s' % self._priority)
 
     literalpriority = property(
         lambda self: self._literalpriority,
